@@ -8,7 +8,7 @@
    timeout T30 > 0 (the code has cap = 1 for a pairing's connection and T30 = 30 s = 122880 ticks).
    [trace es] is the list of outputs of the history, [final es] the state after it. *)
 From Coq Require Import List NArith Arith Bool Lia Sorted Permutation.
-From AHK Require Import Model.Disp Proofs.Disp Proofs.DispTrace.
+From AHK Require Import Model.Disp Proofs.Disp Proofs.DispTrace Model.DispConn Proofs.DispConn.
 Import ListNotations.
 
 Section C08.
@@ -220,6 +220,93 @@ Example c08_nonvacuous :
   opened (Disp.final 1 T30c es) = true /\ (0 + T30c <= clock (Disp.final 1 T30c es) + 122875)%N.
 Proof. vm_compute. repeat split; try reflexivity. discriminate. Qed.
 
+(* ======================================================================================
+   Extension: the LONG-LIVED connection object (Model/DispConn.v): epochs separated by
+   reconnects; the semaphore, the callers and the id space survive, the protocol object
+   (FIFO, parser, timers) is new in every epoch.  [ctrace ces] = outputs tagged with the
+   epoch in which they happened, [cevents ces] = events tagged with the epoch that consumed
+   them, [sel k] = the items of epoch k, [untag] = everything in order.
+   ====================================================================================== *)
+Section C08conn.
+Variable cap : nat.
+Variable T30 : N.
+Hypothesis cap_pos : 0 < cap.
+Hypothesis T30_pos : (0 < T30)%N.
+Notation ctrace := (ctrace cap T30).
+Notation cevents := (cevents cap T30).
+Notation cfinal := (cfinal cap T30).
+Notation cstep := (cstep cap T30).
+
+(* resp_fifo holds in EVERY epoch separately: within epoch k the resolutions are the zip of a prefix of
+   the requests written in epoch k with a prefix of the HTTP messages the peer sent in epoch k *)
+Theorem conn_resp_fifo : forall ces k,
+    exists W2 H2, writes (sel k (ctrace ces)) = map fst (resps (sel k (ctrace ces))) ++ W2 /\
+                  https (sel k (cevents ces)) = map snd (resps (sel k (ctrace ces))) ++ H2.
+Proof. exact (conn_resp_fifo_thm cap T30 cap_pos T30_pos). Qed.
+
+(* "no later request can receive a stale response": a request resolved in epoch k was written in
+   epoch k and got a message sent in epoch k - nothing crosses a reconnect *)
+Theorem conn_no_stale_response : forall ces k r n,
+    In (r, n) (resps (sel k (ctrace ces))) ->
+    In r (writes (sel k (ctrace ces))) /\ In n (https (sel k (cevents ces))).
+Proof. exact (conn_no_stale_thm cap T30 cap_pos T30_pos). Qed.
+
+(* over the whole life of the object: every request ever issued is exactly one of completed (once) /
+   in flight / queued; requests are written in issue order (the semaphore is FIFO, also across
+   reconnects); a written request completes within T30 of its write *)
+Theorem conn_accounted : forall ces,
+    Permutation (seq 0 (next (base (cfinal ces))))
+                (dones (untag (ctrace ces)) ++ map fst (inflight (base (cfinal ces))) ++ waiters (base (cfinal ces))).
+Proof. exact (conn_accounted_thm cap T30 cap_pos T30_pos). Qed.
+
+Theorem conn_issue_order : forall ces, StronglySorted lt (writes (untag (ctrace ces))).
+Proof. exact (conn_issue_order_thm cap T30 cap_pos T30_pos). Qed.
+
+Theorem conn_timeout_at_30s : forall ces r t0,
+    In (OWrote r t0) (untag (ctrace ces)) -> (t0 + T30 <= clock (base (cfinal ces)))%N ->
+    exists oc t1, In (ODone r oc t1) (untag (ctrace ces)) /\ (t0 <= t1 <= t0 + T30)%N.
+Proof. exact (conn_timeout_30s_thm cap T30 cap_pos T30_pos). Qed.
+
+Theorem conn_close_empties_pending : forall ces, opened (base (cfinal ces)) = false ->
+    inflight (base (cfinal ces)) = [] /\ waiters (base (cfinal ces)) = [].
+Proof. exact (conn_closed_flushed_thm cap T30 cap_pos T30_pos). Qed.
+
+(* the state invariant of Proofs/Disp.v (FIFO bounded by cap, queued => cap in flight, every in-flight
+   request inside its 30 s window, ...) holds at every state the long-lived object can reach, so all
+   step theorems above (abandon_on_*, resp_fifo_oldest, ...) apply in every epoch *)
+Theorem conn_invariant : forall ces, Inv cap T30 (base (cfinal ces)).
+Proof. exact (conn_Inv_thm cap T30 cap_pos T30_pos). Qed.
+
+(* a reconnect of a closed connection starts a fresh, USABLE epoch: nothing in flight, nobody queued,
+   the semaphore is free again (the next request is written at once), ids and clock continue *)
+Theorem conn_reconnect_fresh : forall ces, opened (base (cfinal ces)) = false ->
+    let c' := fst (cstep (cfinal ces) Reconnect) in
+    epoch c' = S (epoch (cfinal ces)) /\ opened (base c') = true /\
+    inflight (base c') = [] /\ waiters (base c') = [] /\
+    next (base c') = next (base (cfinal ces)) /\ clock (base c') = clock (base (cfinal ces)) /\
+    snd (cstep c' (Ev Issue)) = [OWrote (next (base c')) (clock (base c'))].
+Proof. exact (conn_reconnect_fresh_thm cap T30 cap_pos T30_pos). Qed.
+
+Theorem conn_reconnect_when_open_is_noop : forall c, opened (base c) = true -> cstep c Reconnect = (c, []).
+Proof. exact (conn_reconnect_open_noop_thm cap T30). Qed.
+
+(* the late connection_lost of an abandoned transport changes nothing *)
+Theorem conn_late_lost_is_ignored : forall c, cstep c LateLost = (c, []).
+Proof. exact (conn_late_lost_noop_thm cap T30). Qed.
+
+End C08conn.
+
+(* non-vacuity: three epochs; the response sent on the dead connection (payload 5) reaches nobody *)
+Example c08_conn_history :
+  DispConn.ctrace 1 T30c [Ev Issue; Ev (Cancel 0); Ev (Data [(KHttp, 5%N)]); Ev Issue; Reconnect; Ev Issue; Ev Issue;
+                          Ev (Data [(KHttp, 6%N)]); LateLost; Ev PeerClose; Reconnect; Reconnect; Ev Issue;
+                          Ev (Data [(KEvent, 9%N); (KHttp, 7%N)])]
+  = [(0, OWrote 0 0); (0, ODone 0 Cancelled 0); (0, OClosed 0); (0, ODone 1 Disconnected 0);
+     (1, OWrote 2 0); (1, ODone 2 (Resp 6) 0); (1, OWrote 3 0); (1, ODone 3 Disconnected 0); (1, OClosed 0);
+     (2, OWrote 4 0); (2, OEvent 9 0); (2, ODone 4 (Resp 7) 0)]
+  /\ epoch (DispConn.cfinal 1 T30c [Ev Issue; Ev PeerEof; Reconnect; Reconnect]) = 1.
+Proof. vm_compute. split; reflexivity. Qed.
+
 Print Assumptions resp_fifo.
 Print Assumptions resp_fifo_issue_order.
 Print Assumptions resp_fifo_oldest.
@@ -241,3 +328,13 @@ Print Assumptions no_hang_timeout_exact.
 Print Assumptions no_hang_inflight_deadline.
 Print Assumptions no_hang_queued.
 Print Assumptions no_hang_silence.
+Print Assumptions conn_resp_fifo.
+Print Assumptions conn_no_stale_response.
+Print Assumptions conn_accounted.
+Print Assumptions conn_issue_order.
+Print Assumptions conn_timeout_at_30s.
+Print Assumptions conn_close_empties_pending.
+Print Assumptions conn_invariant.
+Print Assumptions conn_reconnect_fresh.
+Print Assumptions conn_reconnect_when_open_is_noop.
+Print Assumptions conn_late_lost_is_ignored.
